@@ -623,6 +623,16 @@ func (c *VC) verify() {
 	if len(fr.results) != len(res) {
 		fr.results = nil
 	}
+	{
+		d := fi.Dir
+		if K != nil {
+			d = K.Dir
+		}
+		if d != nil && d.GuardErrors {
+			c.pendErr = types.NewVar(token.NoPos, nil, "pendErr", types.Typ[types.Bool])
+			st.env[c.pendErr] = tFalse
+		}
+	}
 	c.execBlock(st, fi.Decl.Body.List)
 	if !st.dead() {
 		var vals []*Term
@@ -633,6 +643,21 @@ func (c *VC) verify() {
 	}
 	rets := fr.rets
 	c.nReturns = len(rets)
+	if c.pendErr != nil {
+		errT := types.Universe.Lookup("error").Type()
+		for ri, r := range rets {
+			pend, ok := r.st.env[c.pendErr]
+			if !ok {
+				continue
+			}
+			for i, rt := range res {
+				if i < len(r.vals) && types.Identical(rt.Type(), errT) {
+					c.addObl("own/error-propagation", fmt.Sprintf("return %d: a non-nil error obtained from a callee is not dropped", ri+1), r.pos, r.st.pc,
+						mkImplies(pend, mkNot(mkEq(r.vals[i], intLit64(0)))))
+				}
+			}
+		}
+	}
 	split := (K != nil && K.Dir.Split) || fi.Dir.Split
 	var groups [][]*retState
 	if split {
